@@ -73,11 +73,23 @@ func VerifH_C19_writeCFHeaders() {
 		return // the block header does not exist: callers never get here
 	}
 	msg.StopHash = e.chain[stopH].BlockHash()
+	// ... or the answer was given for a stop block that a reorganisation has
+	// disconnected in the meantime (it is no longer in the block index): its
+	// entries belong to blocks that are not on the chain
+	stale := vpParam("stalestops", 1) == 1 && vpRange("answerForADisconnectedStopBlock", 0, 1) == 1
+	if stale {
+		gone := vpHonestHeader(&e.chain[stopH-1], stopH, 7777)
+		msg.StopHash = gone.BlockHash()
+	}
 	preF := append([]chainhash.Hash(nil), e.fs.hashes...)
 	ev0 := len(e.events)
 
 	tip, tipH, err := e.bm.writeCFHeadersMsg(msg, e.fs)
 	vpQuiesce()
+	if stale {
+		vpReach("answer-for-a-disconnected-stop-block")
+		vpAssert(err != nil, "answer-for-a-disconnected-block-is-refused")
+	}
 
 	if !prevOK {
 		vpReach("wrong-prev-header")
